@@ -121,8 +121,37 @@ class Multiline:
     self
     """
     for of in gfa_line.tagnames:
+      self._check_add(of, gfa_line.get(of), gfa_line.get_datatype(of))
+    for of in gfa_line.tagnames:
       self.add(of, gfa_line.get(of), gfa_line.get_datatype(of))
     return self
+
+  def _check_add(self, tagname, value, datatype = None):
+    """
+    Raise the exception that add() would raise for the tag, without
+    changing the header (so that a failing merge leaves it untouched).
+    """
+    prev = self.get(tagname)
+    if prev is None:
+      return
+    elif not isinstance(prev, gfapy.FieldArray):
+      if tagname in self.SINGLE_DEFINITION_TAGS:
+        if self.field_to_s(tagname) != \
+            gfapy.Field._to_gfa_field(value, fieldname=tagname):
+          raise gfapy.InconsistencyError(
+            "Inconsistent values for header tag {} found\n".format(tagname)+
+            "Previous definition: {}\n".format(prev)+
+            "Current definition: {}".format(value))
+        return
+      prev_datatype = self.get_datatype(tagname)
+    else:
+      prev_datatype = prev.datatype
+    if self.vlevel > 0 and datatype is not None and datatype != prev_datatype:
+      raise gfapy.InconsistencyError(
+        "Datadatatype mismatch error for field {}:\n".format(tagname)+
+        "value: {}\n".format(value)+
+        "existing datatype: {};\n".format(prev_datatype)+
+        "new datatype: {}".format(datatype))
 
   def _tags(self):
     """
